@@ -124,19 +124,35 @@ Definition bind {A B} (o : option A) (f : A -> option B) : option B :=
 Notation "'olet' x ':=' e ; f" := (bind e (fun x => f))
   (at level 200, x name, e at level 100, f at level 200, right associativity).
 
+(** ** L1: library behaviour, not modelled.  One record of types and functions; the theorems
+    are stated for every such record that satisfies [l1_ok] (below). *)
+Record l1 : Type := {
+  l_F32 : Type;                                  (* f32 values, all NaNs identified *)
+  l_f32_print : l_F32 -> string;                 (* <f32 as Display>::fmt *)
+  l_f32_parse : string -> option l_F32;          (* str::parse::<f32> *)
+  l_F64 : Type;
+  l_f64_print : l_F64 -> string;
+  l_f64_parse : string -> option l_F64;
+  l_DATE : Type;                                 (* plist::Date within the years 0000..9999 *)
+  l_date_print : l_DATE -> string;               (* Date::to_xml_format *)
+  l_date_parse : string -> option l_DATE;        (* Date::from_xml_format *)
+  l_b64_enc : string -> string;                  (* base64 STANDARD encode (bytes -> text) *)
+  l_b64_dec : string -> option string            (* base64 STANDARD decode *)
+}.
+
 Section Ds.
-  (** ** L1: library behaviour, not modelled *)
-  Variable F32 : Type.                          (* f32 values, all NaNs identified *)
-  Variable f32_print : F32 -> string.           (* <f32 as Display>::fmt *)
-  Variable f32_parse : string -> option F32.    (* str::parse::<f32> *)
-  Variable F64 : Type.
-  Variable f64_print : F64 -> string.
-  Variable f64_parse : string -> option F64.
-  Variable DATE : Type.                         (* plist::Date within the years 0000..9999 *)
-  Variable date_print : DATE -> string.         (* Date::to_xml_format *)
-  Variable date_parse : string -> option DATE.  (* Date::from_xml_format *)
-  Variable b64_enc : string -> string.          (* base64 STANDARD encode (bytes -> text) *)
-  Variable b64_dec : string -> option string.   (* base64 STANDARD decode *)
+  Variable L : l1.
+  Local Notation F32 := (l_F32 L).
+  Local Notation f32_print := (l_f32_print L).
+  Local Notation f32_parse := (l_f32_parse L).
+  Local Notation F64 := (l_F64 L).
+  Local Notation f64_print := (l_f64_print L).
+  Local Notation f64_parse := (l_f64_parse L).
+  Local Notation DATE := (l_DATE L).
+  Local Notation date_print := (l_date_print L).
+  Local Notation date_parse := (l_date_parse L).
+  Local Notation b64_enc := (l_b64_enc L).
+  Local Notation b64_dec := (l_b64_dec L).
 
   (** ** The document type *)
   (** plist::Value without Uid (which the XML form cannot express and [save] refuses);
@@ -670,6 +686,19 @@ Section Ds.
           ++ spec_group "instances" spec_instance (ds_instances d)
           ++ spec_lib (ds_lib d)).
 End Ds.
+
+(** The L1 hypotheses of the theorems: printing then parsing gives the value back; a printed
+    f32 is a non-empty text without a blank (it is an item of a blank-separated list); the other
+    printed texts do not start or end with XML white space (they are element text). *)
+Definition l1_ok (L : l1) : Prop :=
+  (forall x, l_f32_parse L (l_f32_print L x) = Some x) /\
+  (forall x, token (l_f32_print L x)) /\
+  (forall x, l_f64_parse L (l_f64_print L x) = Some x) /\
+  (forall x, edge_ws (l_f64_print L x) = false) /\
+  (forall x, l_date_parse L (l_date_print L x) = Some x) /\
+  (forall x, edge_ws (l_date_print L x) = false) /\
+  (forall x, l_b64_dec L (l_b64_enc L x) = Some x) /\
+  (forall x, edge_ws (l_b64_enc L x) = false).
 
 (** The serde vocabulary of src/designspace.rs as the model uses it: per Rust type, the XML
     name (struct-level rename; empty = none) and per field (Rust field, XML key, flags).
